@@ -162,123 +162,142 @@ Proof. intros H. rewrite !mean_RO. f_equal. apply rsum_ext; auto. Qed.
 
 (* ------------------------------------------------------------ input_sxr *)
 Section InputProofs.
-Variables (K D Tn : nat) (img : nat -> nat -> nat -> R) (noi : nat -> nat -> R).
+Variables (K D : nat) (Sp : nat -> nat -> R) (Np : nat -> R).
 
 Theorem input_harmonic avgc k d :
-  0 < in_Sa RO D Tn img avgc k d -> 0 < in_Ia RO K D Tn img avgc k d -> 0 < in_Na RO D Tn noi avgc d ->
-  / in_sdr_lin RO K D Tn img noi avgc k d
-  = / in_sir_lin RO K D Tn img avgc k d + / in_snr_lin RO D Tn img noi avgc k d.
+  0 < in_Sa RO D Sp avgc k d -> 0 < in_Ia RO K D Sp avgc k d -> 0 < in_Na RO D Np avgc d ->
+  / in_sdr_lin RO K D Sp Np avgc k d
+  = / in_sir_lin RO K D Sp avgc k d + / in_snr_lin RO D Sp Np avgc k d.
 Proof. intros. unfold in_sdr_lin, in_sir_lin, in_snr_lin, odiv. cbn [omul oinv oadd RO].
   apply sxr_harmonic_lin; auto. Qed.
 
 Theorem input_sdr_le_min avgc k d :
-  0 < in_Sa RO D Tn img avgc k d -> 0 < in_Ia RO K D Tn img avgc k d -> 0 < in_Na RO D Tn noi avgc d ->
-  in_sdr_lin RO K D Tn img noi avgc k d
-  <= Rmin (in_sir_lin RO K D Tn img avgc k d) (in_snr_lin RO D Tn img noi avgc k d).
+  0 < in_Sa RO D Sp avgc k d -> 0 < in_Ia RO K D Sp avgc k d -> 0 < in_Na RO D Np avgc d ->
+  in_sdr_lin RO K D Sp Np avgc k d
+  <= Rmin (in_sir_lin RO K D Sp avgc k d) (in_snr_lin RO D Sp Np avgc k d).
 Proof. intros. unfold in_sdr_lin, in_sir_lin, in_snr_lin, odiv. cbn [omul oinv oadd RO].
   apply sxr_sdr_le_min_lin; auto. Qed.
 
 (* the dB values returned without source averaging inherit the order *)
 Theorem input_sdr_le_min_dB avgc k d :
-  0 < in_Sa RO D Tn img avgc k d -> 0 < in_Ia RO K D Tn img avgc k d -> 0 < in_Na RO D Tn noi avgc d ->
-  in_sdr RO K D Tn img noi avgc false k d
-  <= Rmin (in_sir RO K D Tn img avgc false k d) (in_snr RO K D Tn img noi avgc false k d).
+  0 < in_Sa RO D Sp avgc k d -> 0 < in_Ia RO K D Sp avgc k d -> 0 < in_Na RO D Np avgc d ->
+  in_sdr RO K D Sp Np avgc false k d
+  <= Rmin (in_sir RO K D Sp avgc false k d) (in_snr RO K D Sp Np avgc false k d).
 Proof. intros HS HI HN. unfold in_sdr, in_sir, in_snr, avg_src. rewrite !dB_RO.
   pose proof (input_sdr_le_min avgc k d HS HI HN) as Hle.
-  assert (Hp : 0 < in_sdr_lin RO K D Tn img noi avgc k d).
+  assert (Hp : 0 < in_sdr_lin RO K D Sp Np avgc k d).
   { unfold in_sdr_lin, odiv. cbn [omul oinv oadd RO]. apply Rmult_lt_0_compat; auto.
     apply Rinv_0_lt_compat. lra. }
   apply Rmin_glb; apply RdB_increasing; auto.
   eapply Rle_trans; [exact Hle | apply Rmin_l]. eapply Rle_trans; [exact Hle | apply Rmin_r]. Qed.
 
-(* scaling laws: images scaled by ci, noise by cn *)
-Lemma in_S_scale c k d : in_S RO Tn (fun k d t => c * img k d t) k d = c * c * in_S RO Tn img k d.
-Proof. unfold in_S. apply power_scale. Qed.
-Lemma in_N_scale c d : in_N RO Tn (fun d t => c * noi d t) d = c * c * in_N RO Tn noi d.
-Proof. unfold in_N. apply power_scale. Qed.
-Lemma in_I_scale c k d : in_I RO K Tn (fun k d t => c * img k d t) k d = c * c * in_I RO K Tn img k d.
+(* scaling laws on the powers: signal powers times a, noise powers times b *)
+Lemma in_I_scale a k d : in_I RO K (fun k d => a * Sp k d) k d = a * in_I RO K Sp k d.
 Proof. unfold in_I. rewrite !bsum_RO, <- rsum_scale_l. apply rsum_ext; intros n Hn.
-  destruct (Nat.eqb n k); cbn [o0 RO]. ring. apply in_S_scale. Qed.
+  destruct (Nat.eqb n k); cbn [o0 RO]; ring. Qed.
 Lemma avg_ch_scale avgc f c d : avg_ch RO D avgc (fun d => c * f d) d = c * avg_ch RO D avgc f d.
 Proof. unfold avg_ch. destruct avgc; [apply mean_scale|reflexivity]. Qed.
 Lemma avg_ch_ext avgc f g d : (forall d, f d = g d) -> avg_ch RO D avgc f d = avg_ch RO D avgc g d.
 Proof. intros H. unfold avg_ch. destruct avgc; [apply mean_ext; auto|auto]. Qed.
-Lemma in_Sa_scale c avgc k d :
-  in_Sa RO D Tn (fun k d t => c * img k d t) avgc k d = c * c * in_Sa RO D Tn img avgc k d.
-Proof. unfold in_Sa. rewrite <- avg_ch_scale. apply avg_ch_ext. intros; apply in_S_scale. Qed.
-Lemma in_Ia_scale c avgc k d :
-  in_Ia RO K D Tn (fun k d t => c * img k d t) avgc k d = c * c * in_Ia RO K D Tn img avgc k d.
+Lemma in_Sa_scale a avgc k d : in_Sa RO D (fun k d => a * Sp k d) avgc k d = a * in_Sa RO D Sp avgc k d.
+Proof. unfold in_Sa. apply avg_ch_scale. Qed.
+Lemma in_Ia_scale a avgc k d : in_Ia RO K D (fun k d => a * Sp k d) avgc k d = a * in_Ia RO K D Sp avgc k d.
 Proof. unfold in_Ia. rewrite <- avg_ch_scale. apply avg_ch_ext. intros; apply in_I_scale. Qed.
-Lemma in_Na_scale c avgc d :
-  in_Na RO D Tn (fun d t => c * noi d t) avgc d = c * c * in_Na RO D Tn noi avgc d.
-Proof. unfold in_Na. rewrite <- avg_ch_scale. apply avg_ch_ext. intros; apply in_N_scale. Qed.
+Lemma in_Na_scale b avgc d : in_Na RO D (fun d => b * Np d) avgc d = b * in_Na RO D Np avgc d.
+Proof. unfold in_Na. apply avg_ch_scale. Qed.
+
+Theorem input_common_scale_pw a avgc k d : a <> 0 ->
+  in_Ia RO K D Sp avgc k d + in_Na RO D Np avgc d <> 0 ->
+  in_Ia RO K D Sp avgc k d <> 0 -> in_Na RO D Np avgc d <> 0 ->
+  in_sdr_lin RO K D (fun k d => a * Sp k d) (fun d => a * Np d) avgc k d = in_sdr_lin RO K D Sp Np avgc k d /\
+  in_sir_lin RO K D (fun k d => a * Sp k d) avgc k d = in_sir_lin RO K D Sp avgc k d /\
+  in_snr_lin RO D (fun k d => a * Sp k d) (fun d => a * Np d) avgc k d = in_snr_lin RO D Sp Np avgc k d.
+Proof. intros Ha H1 H2 H3. unfold in_sdr_lin, in_sir_lin, in_snr_lin, odiv. cbn [omul oinv oadd RO].
+  rewrite in_Sa_scale, in_Ia_scale, in_Na_scale.
+  rewrite <- Rmult_plus_distr_l. repeat split; apply ratio_common_scale; auto. Qed.
+
+Theorem input_image_scale_pw a avgc k d : a <> 0 -> in_Ia RO K D Sp avgc k d <> 0 ->
+  in_snr_lin RO D (fun k d => a * Sp k d) Np avgc k d = a * in_snr_lin RO D Sp Np avgc k d /\
+  in_sir_lin RO K D (fun k d => a * Sp k d) avgc k d = in_sir_lin RO K D Sp avgc k d.
+Proof. intros Ha HI. unfold in_sir_lin, in_snr_lin, odiv. cbn [omul oinv RO].
+  rewrite in_Sa_scale, in_Ia_scale. split; [ring | apply ratio_common_scale; auto]. Qed.
 End InputProofs.
+
+(* ---- the same laws for the signals: images scaled by c, noise by c (common) or left alone ---- *)
+Lemma in_S_scale Tn (img : nat -> nat -> nat -> R) c :
+  in_S RO Tn (fun k d t => c * img k d t) = fun k d => c * c * in_S RO Tn img k d.
+Proof. apply FunctionalExtensionality.functional_extensionality; intros k.
+  apply FunctionalExtensionality.functional_extensionality; intros d. unfold in_S. apply power_scale. Qed.
+Lemma in_N_scale Tn (noi : nat -> nat -> R) c :
+  in_N RO Tn (fun d t => c * noi d t) = fun d => c * c * in_N RO Tn noi d.
+Proof. apply FunctionalExtensionality.functional_extensionality; intros d. unfold in_N. apply power_scale. Qed.
 
 Section InputScale.
 Variables (K D Tn : nat) (img : nat -> nat -> nat -> R) (noi : nat -> nat -> R) (c : R).
 Let imgc := fun k d t => c * img k d t.
 Let noic := fun d t => c * noi d t.
+Let Sp := in_S RO Tn img.
+Let Np := in_N RO Tn noi.
+Let Spc := in_S RO Tn imgc.
+Let Npc := in_N RO Tn noic.
 
 (* common rescaling of images and noise: all three linear ratios unchanged (hence all dB values) *)
 Theorem input_common_scale avgc k d : c <> 0 ->
-  in_Ia RO K D Tn img avgc k d + in_Na RO D Tn noi avgc d <> 0 ->
-  in_Ia RO K D Tn img avgc k d <> 0 -> in_Na RO D Tn noi avgc d <> 0 ->
-  in_sdr_lin RO K D Tn imgc noic avgc k d = in_sdr_lin RO K D Tn img noi avgc k d /\
-  in_sir_lin RO K D Tn imgc avgc k d = in_sir_lin RO K D Tn img avgc k d /\
-  in_snr_lin RO D Tn imgc noic avgc k d = in_snr_lin RO D Tn img noi avgc k d.
-Proof. intros Hc H1 H2 H3. unfold in_sdr_lin, in_sir_lin, in_snr_lin, odiv, imgc, noic. cbn [omul oinv oadd RO].
-  rewrite in_Sa_scale, in_Ia_scale, in_Na_scale.
+  in_Ia RO K D Sp avgc k d + in_Na RO D Np avgc d <> 0 ->
+  in_Ia RO K D Sp avgc k d <> 0 -> in_Na RO D Np avgc d <> 0 ->
+  in_sdr_lin RO K D Spc Npc avgc k d = in_sdr_lin RO K D Sp Np avgc k d /\
+  in_sir_lin RO K D Spc avgc k d = in_sir_lin RO K D Sp avgc k d /\
+  in_snr_lin RO D Spc Npc avgc k d = in_snr_lin RO D Sp Np avgc k d.
+Proof. intros Hc H1 H2 H3. unfold Spc, Npc, imgc, noic. rewrite in_S_scale, in_N_scale.
   assert (c * c <> 0) by (apply Rmult_integral_contrapositive; auto).
-  rewrite <- Rmult_plus_distr_l. repeat split; apply ratio_common_scale; auto. Qed.
+  apply (input_common_scale_pw K D Sp Np (c * c)); auto. Qed.
 
 Theorem input_common_scale_dB avgc avgs k d : c <> 0 ->
-  (forall k, in_Ia RO K D Tn img avgc k d + in_Na RO D Tn noi avgc d <> 0) ->
-  (forall k, in_Ia RO K D Tn img avgc k d <> 0) -> in_Na RO D Tn noi avgc d <> 0 ->
-  in_sdr RO K D Tn imgc noic avgc avgs k d = in_sdr RO K D Tn img noi avgc avgs k d /\
-  in_sir RO K D Tn imgc avgc avgs k d = in_sir RO K D Tn img avgc avgs k d /\
-  in_snr RO K D Tn imgc noic avgc avgs k d = in_snr RO K D Tn img noi avgc avgs k d.
+  (forall k, in_Ia RO K D Sp avgc k d + in_Na RO D Np avgc d <> 0) ->
+  (forall k, in_Ia RO K D Sp avgc k d <> 0) -> in_Na RO D Np avgc d <> 0 ->
+  in_sdr RO K D Spc Npc avgc avgs k d = in_sdr RO K D Sp Np avgc avgs k d /\
+  in_sir RO K D Spc avgc avgs k d = in_sir RO K D Sp avgc avgs k d /\
+  in_snr RO K D Spc Npc avgc avgs k d = in_snr RO K D Sp Np avgc avgs k d.
 Proof. intros Hc H1 H2 H3. unfold in_sdr, in_sir, in_snr, avg_src.
-  assert (E : forall k, in_sdr_lin RO K D Tn imgc noic avgc k d = in_sdr_lin RO K D Tn img noi avgc k d /\
-      in_sir_lin RO K D Tn imgc avgc k d = in_sir_lin RO K D Tn img avgc k d /\
-      in_snr_lin RO D Tn imgc noic avgc k d = in_snr_lin RO D Tn img noi avgc k d).
+  assert (E : forall k, in_sdr_lin RO K D Spc Npc avgc k d = in_sdr_lin RO K D Sp Np avgc k d /\
+      in_sir_lin RO K D Spc avgc k d = in_sir_lin RO K D Sp avgc k d /\
+      in_snr_lin RO D Spc Npc avgc k d = in_snr_lin RO D Sp Np avgc k d).
   { intros k'. apply input_common_scale; auto. }
   destruct avgs.
   - repeat split; apply mean_ext; intros k' _; destruct (E k') as [E1 [E2 E3]]; rewrite ?E1, ?E2, ?E3; reflexivity.
   - destruct (E k) as [E1 [E2 E3]]. rewrite E1, E2, E3. auto. Qed.
 
 (* images scaled by c, noise untouched: SNR (linear) is multiplied by c^2, SIR unchanged *)
-Theorem input_image_scale avgc k d : c <> 0 -> in_Ia RO K D Tn img avgc k d <> 0 ->
-  in_snr_lin RO D Tn imgc noi avgc k d = c * c * in_snr_lin RO D Tn img noi avgc k d /\
-  in_sir_lin RO K D Tn imgc avgc k d = in_sir_lin RO K D Tn img avgc k d.
-Proof. intros Hc HI. unfold in_sir_lin, in_snr_lin, odiv, imgc. cbn [omul oinv RO].
-  rewrite in_Sa_scale, in_Ia_scale.
+Theorem input_image_scale avgc k d : c <> 0 -> in_Ia RO K D Sp avgc k d <> 0 ->
+  in_snr_lin RO D Spc Np avgc k d = c * c * in_snr_lin RO D Sp Np avgc k d /\
+  in_sir_lin RO K D Spc avgc k d = in_sir_lin RO K D Sp avgc k d.
+Proof. intros Hc HI. unfold Spc, imgc. rewrite in_S_scale.
   assert (c * c <> 0) by (apply Rmult_integral_contrapositive; auto).
-  split; [ring | field; auto]. Qed.
+  apply (input_image_scale_pw K D Sp Np (c * c)); auto. Qed.
 
 (* in dB: SNR moves by exactly 20 log10 c *)
 Theorem input_image_scale_dB avgc k d : 0 < c ->
-  0 < in_Sa RO D Tn img avgc k d -> 0 < in_Na RO D Tn noi avgc d ->
-  in_snr RO K D Tn imgc noi avgc false k d = in_snr RO K D Tn img noi avgc false k d + 20 * Rlog10 c.
+  0 < in_Sa RO D Sp avgc k d -> 0 < in_Na RO D Np avgc d ->
+  in_snr RO K D Spc Np avgc false k d = in_snr RO K D Sp Np avgc false k d + 20 * Rlog10 c.
 Proof. intros Hc HS HN. unfold in_snr, avg_src. rewrite !dB_RO.
-  unfold in_snr_lin, odiv, imgc. cbn [omul oinv RO]. rewrite in_Sa_scale.
-  assert (0 < / in_Na RO D Tn noi avgc d) by (apply Rinv_0_lt_compat; auto).
+  unfold in_snr_lin, odiv, Spc, imgc. cbn [omul oinv RO]. rewrite in_S_scale, in_Sa_scale.
+  assert (0 < / in_Na RO D Np avgc d) by (apply Rinv_0_lt_compat; auto).
   rewrite Rmult_assoc. rewrite RdB_mult; [| nra | apply Rmult_lt_0_compat; auto].
-  rewrite RdB_sq by auto. lra. Qed.
-End InputScale.
+  rewrite RdB_sq by auto. fold Sp. lra. Qed.
 
 (* source-averaged SNR in dB also moves by exactly 20 log10 c (mean of shifted values) *)
-Theorem input_image_scale_dB_avg K D Tn (img : nat -> nat -> nat -> R) noi c avgc d : 0 < c -> (0 < K)%nat ->
-  (forall k, 0 < in_Sa RO D Tn img avgc k d) -> 0 < in_Na RO D Tn noi avgc d ->
-  in_snr RO K D Tn (fun k d t => c * img k d t) noi avgc true 0 d
-  = in_snr RO K D Tn img noi avgc true 0 d + 20 * Rlog10 c.
+Theorem input_image_scale_dB_avg avgc d : 0 < c -> (0 < K)%nat ->
+  (forall k, 0 < in_Sa RO D Sp avgc k d) -> 0 < in_Na RO D Np avgc d ->
+  in_snr RO K D Spc Np avgc true 0 d = in_snr RO K D Sp Np avgc true 0 d + 20 * Rlog10 c.
 Proof. intros Hc HK HS HN. unfold in_snr, avg_src.
-  rewrite (mean_ext K _ (fun k => dB RO (in_snr_lin RO D Tn img noi avgc k d) + 20 * Rlog10 c)).
-  2:{ intros k _. pose proof (input_image_scale_dB K D Tn img noi c avgc k d Hc (HS k) HN) as E.
+  rewrite (mean_ext K _ (fun k => dB RO (in_snr_lin RO D Sp Np avgc k d) + 20 * Rlog10 c)).
+  2:{ intros k _. pose proof (input_image_scale_dB avgc k d Hc (HS k) HN) as E.
       unfold in_snr, avg_src in E. exact E. }
   rewrite !mean_RO, rsum_plus.
   assert (Ec : forall n x, rsum n (fun _ => x) = INR n * x).
   { induction n; intros; cbn [rsum]. simpl; ring. rewrite IHn, S_INR. ring. }
   rewrite Ec. field. apply not_0_INR. lia. Qed.
+End InputScale.
 
 (* ------------------------------------------------------------ get_snr / set_snr *)
 Theorem set_get_snr_lin PX PN snr : 0 < PX -> 0 < PN ->
